@@ -14,6 +14,13 @@ func (l *Local) Readdir(offset uint64, count uint32) (p9.Dirents, error) {
 		cursor = uint64(0)
 	)
 
+	// Entries are numbered from the start of the directory, so every call
+	// has to list from the start: rewind the directory stream, whose
+	// position is shared by all calls on this file.
+	if _, err := l.file.Seek(0, io.SeekStart); err != nil {
+		return nil, err
+	}
+
 	for len(p9Ents) < int(count) {
 		singleEnt, err := l.file.Readdirnames(1)
 
@@ -26,8 +33,9 @@ func (l *Local) Readdir(offset uint64, count uint32) (p9.Dirents, error) {
 		// we consumed an entry
 		cursor++
 
-		// cursor \in (offset, offset+count)
-		if cursor < offset || cursor > offset+uint64(count) {
+		// cursor \in (offset, offset+count]; entries up to offset were
+		// returned by earlier calls
+		if cursor <= offset || cursor > offset+uint64(count) {
 			continue
 		}
 
